@@ -484,6 +484,7 @@ func apisimMain(c *Ctx) {
 		vs, evals, imgs := runAPICase(c, ac, simrt.NewTape(seed), true)
 		c.Res.Runs++
 		c.Res.Evaluations += evals
+		c.RunHash(nil, seed, evals, strings.Join(imgs, ","), len(vs))
 		rejected := 0
 		for _, op := range ac.Ops {
 			if op.Kind == "put" && (apiKeys[op.Key] == "" || op.Val == 0) {
